@@ -19,13 +19,20 @@ NAME_BASES = ["t", "t", "t", "-", "_", "T-", "0", "a_b"]
 PROC_KINDS = ("cmd", "exp")
 
 
+def _mask(k):
+    """Uniform bit mask over k positions (st.integers is biased towards small values)."""
+    return st.sampled_from(range(1 << k)) if k <= 12 else st.integers(0, (1 << k) - 1)
+
+
 @st.composite
 def graph_case(draw, max_tasks=8, min_tasks=1, kinds=("cmd", "exp", "group", "combine"),
-               kind_weights=None, p_par=0.5, seeded=True, outcomes="none", max_bad=3,
-               jobs=(None, 1, 2, 3, 4, 5), flags=("again",), tape_max=40, foreign=False,
+               kind_weights=(3, 3, 1, 1), p_par=0.75, p_seed_den=3,
+               densities=("dense", "sparse", "sparse", "thin", "thin"), seeded=True, outcomes="none", max_bad=3,
+               jobs=(None, 1, 2, 2, 3, 3, 4, 5), flags=("again",), tape_max=40, foreign=False,
                wide=False, tape_hi=15):
     pkgs = draw(st.sampled_from(PKG_SETS))
-    n = draw(st.integers(min_tasks, max_tasks))
+    sizes = [k for k in range(min_tasks, max_tasks + 1)]
+    n = draw(st.sampled_from(sizes + [k for k in sizes if k >= 4] * 3))
     kind_pool = list(kinds) if kind_weights is None else [k for k, wt in zip(kinds, kind_weights) for _ in range(wt)]
     tasks = []
     for i in range(n):
@@ -34,19 +41,27 @@ def graph_case(draw, max_tasks=8, min_tasks=1, kinds=("cmd", "exp", "group", "co
         base = draw(st.sampled_from(NAME_BASES))
         t = {"pkg": pkg, "name": "%s%d" % (base, i), "kind": kind, "deps": []}
         if kind in PROC_KINDS:
-            t["par"] = draw(st.booleans()) if p_par == 0.5 else (draw(st.integers(0, 99)) < int(p_par * 100))
+            t["par"] = draw(st.sampled_from([True] * int(p_par * 8) + [False] * (8 - int(p_par * 8))))
         tasks.append(t)
+    density = draw(st.sampled_from(list(densities)))
     for i in range(n):
         later = list(range(i + 1, n))
         if not later:
             continue
         # each possible edge present with probability 1/2 (dense: diamonds and
         # shortcut edges are the common case), then an independent listing order
-        mask = draw(st.integers(0, (1 << len(later)) - 1))
+        mask = draw(_mask(len(later)))
+        if density != "dense":
+            mask &= draw(_mask(len(later)))
+        if density == "thin":
+            mask &= draw(_mask(len(later)))
+        if i == 0 and density != "dense":
+            # the target fans out so that several tasks are ready at once
+            mask |= draw(_mask(len(later)))
         if i == 0 and mask == 0:
             mask = 1
         if wide and i == 0:
-            mask |= draw(st.integers(0, (1 << len(later)) - 1))
+            mask |= draw(_mask(len(later)))
         deps = [j for b, j in enumerate(later) if (mask >> b) & 1]
         if len(deps) > 1:
             deps = list(draw(st.permutations(deps)))
@@ -54,11 +69,11 @@ def graph_case(draw, max_tasks=8, min_tasks=1, kinds=("cmd", "exp", "group", "co
             form = draw(st.sampled_from(["rel", "abs"]))
             tasks[i]["deps"].append([j, form])
     case = {"pkgs": pkgs, "tasks": tasks}
-    case["target"] = draw(st.sampled_from([0, 0, 0] + list(range(n))))
+    case["target"] = draw(st.sampled_from([0] * (2 * n) + list(range(n))))
     if seeded:
         sd = {}
         for i, t in enumerate(tasks):
-            if t["kind"] == "exp" and draw(st.integers(0, 2)) == 0:
+            if t["kind"] == "exp" and draw(st.sampled_from(range(p_seed_den))) == 0:
                 sd[str(i)] = draw(st.lists(st.integers(100, 900), min_size=1, max_size=2, unique=True))
         case["seeded"] = sd
     else:
@@ -85,7 +100,10 @@ def graph_case(draw, max_tasks=8, min_tasks=1, kinds=("cmd", "exp", "group", "co
             else:
                 oc[str(i)] = {"launch": draw(st.sampled_from(["eagain", "enoent"]))}
     case["outcomes"] = oc
-    case["tape"] = draw(st.lists(st.sampled_from([0, 0, 0] + list(range(tape_hi + 1))), max_size=tape_max))
+    tlen = draw(st.sampled_from([0, 4, 10, 20, 40, tape_max]))
+    tlen = min(tlen, tape_max)
+    case["tape"] = draw(st.lists(st.sampled_from([0] * (2 * tape_hi) + list(range(1, tape_hi + 1))),
+                                 min_size=tlen, max_size=tlen))
     case["foreign"] = draw(st.integers(0, 2)) if foreign else 0
     return case
 
